@@ -723,6 +723,15 @@ class NPModel:
         return math.sqrt(a)
 
     @staticmethod
+    def prod(a, *r, **k):
+        if r or k:
+            raise AnalysisError("np.prod with options not modelled")
+        out = 1
+        for v in _seq(a):
+            out *= v
+        return out
+
+    @staticmethod
     def cross(a, b):
         raise AnalysisError("np.cross not modelled")
 
